@@ -986,6 +986,18 @@ class BlobStorage(BlobStorageMixin):
 
         return undo_serial, keys
 
+    def registerDB(self, db):
+        super().registerDB(db)
+        # We answer in the place of the storage we wrap, which wants to
+        # know the database too: conflict resolution asks it how to read
+        # the records (a compressing or encrypting wrapper around us).
+        try:
+            m = self.__storage.registerDB
+        except AttributeError:
+            pass
+        else:
+            m(db)
+
     def new_instance(self):
         """Implementation of IMVCCStorage.new_instance.
 
